@@ -795,13 +795,20 @@ def feasibility_table(ctx, RM, o):
                 r = r.func.value
             if ast.unparse(l) == name_v and is_self_attr(r, '_resources'):
                 return 'known', isinstance(test.ops[0], ast.In)
+        # `pool = self._resources.get(name); if pool is None` -- the lookup that answers None for an unknown resource
+        if isinstance(test, ast.Compare) and len(test.ops) == 1 and isinstance(test.ops[0], (ast.Is, ast.IsNot, ast.Eq, ast.NotEq)) \
+                and isinstance(test.comparators[0], ast.Constant) and test.comparators[0].value is None:
+            l = subst(test.left, env)
+            if isinstance(l, ast.Call) and isinstance(l.func, ast.Attribute) and l.func.attr == 'get' and is_self_attr(l.func.value, '_resources') \
+                    and len(l.args) == 1 and not l.keywords and ast.unparse(l.args[0]) == name_v:
+                return 'known', isinstance(test.ops[0], (ast.IsNot, ast.NotEq))
         for truth in (True, False):
             r = cmp_norm(N, test, env, truth)
             if r and r[1] in ('<', '<='):
                 L = r[0]
                 keys = list(L.terms)
-                caps = [k for k in keys if k.endswith('][1]')]
-                uses = [k for k in keys if k.endswith('][0]')]
+                caps = [k for k in keys if k.endswith('[1]') and 'self._resources' in k]
+                uses = [k for k in keys if k.endswith('[0]') and 'self._resources' in k]
                 others = [k for k in keys if k not in caps + uses]
                 if len(caps) == 1 and len(uses) == 1 and others == [amt_v] and L.const == 0:
                     if r[1] == '<' and L.terms[caps[0]] == 1 and L.terms[uses[0]] == -1 and L.terms[amt_v] == -1:
